@@ -192,6 +192,25 @@ def run():
         inc_checked += 1
         if inc != per:
             chk.violation("tree-sequence incremental topology counter differs from the per-tree counter", dict(a=a, sets=sets))
+    # ... and on unsimplified sequences in which non-sample nodes lose their children, vanish and come back as childless dead ends
+    for i in range(150 if QUICK else 4000):
+        a = gen.coalescent_abstract(rng, nleaves=rng.randint(3, 6), ninternal=rng.randint(2, 5), K=rng.randint(3, 6), p_keep=0.6)
+        a = gen.deadend_variant(a, rng)
+        ts = gen.build_tables(dict(a, sites=[], muts=[])).tree_sequence()
+        S = [int(u) for u in ts.samples()]
+        sets = [S[0::3], S[1::3], S[2::3]] if rng.random() < 0.5 else [S[0::2], S[1::2]]
+        sets = [x for x in sets if x]
+        if len(sets) < 2:
+            continue
+        try:
+            inc = list(ts.count_topologies(sets))
+            per = [t.count_topologies(sets) for t in ts.trees()]
+        except Exception as e:  # noqa: BLE001
+            chk.violation("count_topologies raised on a valid tree sequence: %s: %s" % (type(e).__name__, e), dict(a=a, sets=sets))
+            continue
+        inc_checked += 1
+        if inc != per:
+            chk.violation("tree-sequence incremental topology counter differs from the per-tree counter (dead-end nodes)", dict(a=a, sets=sets))
     # large n: big-integer ranks round trip (harness-evaluated)
     big_ok = 0
     for n in (10, 12, 14, 16):
